@@ -5,6 +5,7 @@ import (
 	"encoding/binary"
 	"fmt"
 	"io"
+	"math"
 
 	"github.com/iotaledger/hive.go/ierrors"
 	"github.com/iotaledger/hive.go/serializer/v2"
@@ -155,6 +156,9 @@ func readFixedSize(reader io.Reader, lenType serializer.SeriLengthPrefixType) (i
 		result, err := Read[uint64](reader)
 		if err != nil {
 			return 0, ierrors.Wrap(err, "failed to read length prefix")
+		}
+		if result > math.MaxInt {
+			return 0, ierrors.Errorf("failed to read length prefix: length %d is out of range (0-%d)", result, math.MaxInt)
 		}
 
 		return int(result), nil
